@@ -29,6 +29,8 @@ THEOREMS = [
     "Nix.C12.name_still_available",
     "Nix.C12.rejected_name_available",
     "Nix.C12.auto_array_refused_unchanged",
+    "Nix.C12.extend_refused_unchanged",
+    "Nix.C12.extend_loop_counterexample",
     "Nix.C12.auto_array_life_cycle",
     "Nix.C12.multi_tag_refused_unchanged",
 ]
@@ -59,8 +61,7 @@ MANIFEST = {
                   "refused call of a catalogue and of random histories).",
     "level_note": "Trusted: Lean kernel; standard axioms; the correspondence harness and its fault table; h5py/HDF5 link "
                   "semantics modelled, not verified. Partial: dataset contents/extents are leaf nodes of the model, so "
-                  "refused data-level calls (DataSet.append, dataset-writing setters, link-list extend) are checked by "
-                  "the oracle only. create_multi_tag with positions/extents given as data (auto-created arrays, roll-back "
+                  "refused data-level calls (DataSet.append, dataset-writing setters) are checked by the oracle only. create_multi_tag with positions/extents given as data (auto-created arrays, roll-back "
                   "through delete_all) has its own full theorem (multi_tag_refused_unchanged, under C03's invariant WF and "
                   "the assumption that '<name>-positions' / '<name>-extents' are not ids of the supply). "
                   "name_still_available is proved for create_group/source/data_array/tag (not for multi tags).",
@@ -121,7 +122,7 @@ class Impl12(Impl):
     mutating op and a refusal that changed the file is recorded in `self.changed`"""
 
     MUTATORS = ("create_block", "create_section", "create", "create_property", "create_feature", "create_mtag",
-                "append_dim", "del", "append", "set_role", "set_attr")
+                "append_dim", "del", "append", "extend", "set_role", "set_attr")
 
     def __init__(self, path, literal_uuid_names=(), strict=False):
         super().__init__(path, literal_uuid_names)
@@ -188,6 +189,10 @@ class Impl12(Impl):
             else:
                 kw = DIM_FAULTS[dk][(wd, fault[0], fault[1], fault[2])]
             getattr(owner, meth)(**kw)
+            return None
+        if kind == "extend":
+            cont = self.container(self.nav(op[1]), op[2])
+            cont.extend([self.key_arg(k) for k in op[3]])
             return None
         if kind in ("dump12", "dump"):
             return self.dump12()
@@ -399,7 +404,7 @@ class Gen12(storegen.Gen):
             self.do(["create_block", "b0", "t"])
             return "setup"
         kind = rng.choice(["da_fault", "da_fault", "tag_fault", "mtag", "mtag", "dim", "dim", "name", "name",
-                           "feature", "link", "role", "index"])
+                           "feature", "link", "extend", "extend", "role", "index"])
         b = rng.choice(blocks)
         if kind in ("da_fault", "tag_fault"):
             what = "data_array" if kind == "da_fault" else "tag"
@@ -518,6 +523,30 @@ class Gen12(storegen.Gen):
             key = rng.choice([{"o": other.path}, {"s": "nope"}, {"s": storegen.LIT_UUID}, {"p": 3}])
             self.around(["append", owner.path, cn, key], None, [owner.path, cn])
             return "link"
+        if kind == "extend":
+            owner = self.pick(ents, rng.choice(["group", "group", "tag", "multi_tag", "data_array"]))
+            if owner is None:
+                return "extend:none"
+            cn = rng.choice([c for c in storegen.CONTAINERS[owner.kind] if (owner.kind, c) in storegen.LINK_CONTS])
+            ik = storegen.ITEM_KIND[cn]
+            good = [e for e in ents if e.kind == ik and e.block == owner.block]
+            keys = [{"o": rng.choice(good).path} for _ in range(rng.randrange(0, 3)) if good]
+            bad = rng.choice(["foreign", "kind", "str", "int", "none"])
+            if bad == "foreign":
+                cand = [e for e in ents if e.kind == ik and e.block != owner.block]
+                if cand:
+                    keys.insert(rng.randrange(len(keys) + 1), {"o": rng.choice(cand).path})
+            elif bad == "kind":
+                cand = [e for e in ents if e.kind != ik and e.kind not in ("feature", "property")]
+                if cand:
+                    keys.insert(rng.randrange(len(keys) + 1), {"o": rng.choice(cand).path})
+            elif bad == "str":
+                keys.insert(rng.randrange(len(keys) + 1), {"s": rng.choice(["nope", storegen.LIT_UUID])})
+            elif bad == "int":
+                keys.insert(rng.randrange(len(keys) + 1), {"p": 3})
+            self.around(["extend", owner.path, cn, keys], ["extend", owner.path, cn, [k for k in keys if "o" in k][:1]],
+                        [owner.path, cn])
+            return "extend:" + bad
         if kind == "role":
             e = self.pick(ents)
             other = self.pick(ents)
